@@ -286,16 +286,16 @@ Proof.
     destruct (analyze G e) as [ia|] eqn:E1; [|discriminate].
     destruct (as_int ia) as [x|] eqn:Ex; [|discriminate].
     destruct (hi x) as [|z|] eqn:Eh; try discriminate.
-    destruct (cv ia) eqn:Ecv; [discriminate|]. inv_some.
+    inv_some.
     unfold bounds_of in HE. rewrite E1 in HE. cbn in HE.
     apply as_int_inv in Ex. rewrite Ex in HE. rewrite Eh in HE. inv_some.
-    cbn. split; [apply aval_const_sound|intros c H; discriminate].
+    cbn. split; [apply aval_const_sound|intros c [= <-]; reflexivity].
   - (* ELower *)
     destruct (analyze G e) as [ia|] eqn:E1; [|discriminate].
     destruct (as_int ia) as [x|] eqn:Ex; [|discriminate].
     destruct (lo x) as [|z|] eqn:Eh; try discriminate.
-    destruct (cv ia) eqn:Ecv; [discriminate|]. inv_some.
+    inv_some.
     unfold bounds_of in HE. rewrite E1 in HE. cbn in HE.
     apply as_int_inv in Ex. rewrite Ex in HE. rewrite Eh in HE. inv_some.
-    cbn. split; [apply aval_const_sound|intros c H; discriminate].
+    cbn. split; [apply aval_const_sound|intros c [= <-]; reflexivity].
 Qed.
